@@ -71,6 +71,10 @@ func (h *DBH) Reopen() error {
 	if err := h.Close(); err != nil {
 		return fmt.Errorf("close: %v", err)
 	}
+	// Transaction ids are time based (millisecond clock + per-process sequence). A
+	// restarted process never shares a millisecond with its predecessor, so the
+	// simulated restart does not either (stated assumption, DESIGN.md 2.2).
+	waitMs()
 	n, err := OpenDB(h.Dir, h.Cfg)
 	if err != nil {
 		return err
@@ -310,6 +314,9 @@ func ExecOp(h *DBH, tx *nutsdb.Tx, op Op) (res Res) {
 		return errRes(tx.Put(b, bs(op.Key), bs(op.V), op.TTL))
 	case "putts":
 		return errRes(tx.PutWithTimestamp(b, bs(op.Key), bs(op.V), op.TTL, op.TS))
+	case "putbig":
+		// an entry larger than the segment size: accepted by Put, rejected by Commit
+		return errRes(tx.Put(b, bs(op.Key), make([]byte, h.Cfg.Seg+1), 0))
 	case "del":
 		return errRes(tx.Delete(b, bs(op.Key)))
 	case "get":
